@@ -18,7 +18,9 @@ static void jstr(FILE *f, const char *s)
 {
   fputc('"', f);
   for (const unsigned char *c = (const unsigned char *) s; *c; c++) {
-    if (*c == '"' || *c == '\\') fprintf(f, "\\%c", *c);
+    size_t run = 1; while (c[run] == *c) run++;
+    if (run >= 256 && *c >= 0x20 && *c < 0x7f && *c != '%' && *c != '"' && *c != '\\') { fprintf(f, "%%*%zu*%c", run, *c); c += run - 1; }   /* the scripts' run token (json.c) */
+    else if (*c == '"' || *c == '\\') fprintf(f, "\\%c", *c);
     else if (*c < 0x20 || *c >= 0x7f || *c == '%') fprintf(f, "%%%02X", *c);   /* the scripts' %XX convention (json.h) */
     else fputc(*c, f);
   }
